@@ -34,6 +34,7 @@ func init() {
 			"the set of modules whose hash changed must equal {m} U descendants(m), descendants by the harness's own reachability over inputs and block filters (the set is the same in the original and in the mutated graph because only m's own fields change). " +
 			"(3) identity-preserving transformations leave every hash unchanged: consistent rename (fresh names or a permutation of the existing names), unrelated modules inserted, binaries permuted / re-indexed, import under an alias through manifest.NewReader (spkg written to disk + importing YAML manifest, optionally with a 'use' module). " +
 			"(4) store update policy / value type, store input mode, map output type, module list order, dependent additions: hash changed / unchanged is only counted. " +
+			"(5) added after the seeded rounds: the package hashed from 8 goroutines at once must give the single-threaded hashes; filter queries differing only by white space inside a quoted key must hash differently; after a hashed field (params value, initial block, entry point) is changed IN PLACE and the package is hashed again with a fresh ModuleHashes over the SAME ModuleGraph object, the hashes must equal those of a freshly built graph. " +
 			"non-trivial = mutation of a module that has both an ancestor and a descendant; distinct by (graph, module, mutation)",
 		Assumptions: []string{
 			"'descendants' = modules that transitively read m through map inputs, store inputs (get or deltas) or their block-filter module; a params VALUE is free text, never a dependency",
@@ -206,6 +207,7 @@ func run(c *fw.Case) {
 
 	concurrentDeterminism(c, w, mods, base)
 	quotedWhitespace(c, w, mods)
+	reusedGraph(c, w, mods)
 
 	// ---- (1) determinism inside the process
 	round := &pbsubstreams.Modules{}
